@@ -52,7 +52,12 @@ enum Ext {
 
 fn iface_names(apis: &[ApiPkg], p: usize, i: usize) -> BTreeSet<String> {
     let f = &apis[p].ifaces[i];
-    f.type_names().into_iter().map(|(n, _)| n).chain(f.func_names()).collect()
+    // every declared name (named borrow handles are not offered to `use`, but they are exports all the same)
+    let declared = f.items.iter().filter_map(|it| match it {
+        Item::Type { name, .. } | Item::Resource { name, .. } => Some(name.clone()),
+        _ => None,
+    });
+    f.type_names().into_iter().map(|(n, _)| n).chain(f.func_names()).chain(declared).collect()
 }
 
 /// a <: b
@@ -657,7 +662,7 @@ fn check(c: &Case) -> Outcome {
     if standalone_c != collapse(&e_semver) {
         let tracks: Vec<String> = cs.imports.keys().map(|k| track_key(k)).collect();
         let two = tracks.iter().any(|t| tracks.iter().filter(|x| *x == t).count() >= 2);
-        let sig = if standalone == e_exact { "C11/standalone-not-semver-aware".to_string() } else { format!("C11/standalone-report-differs{}{}", if semver_near { ":semver-near" } else { "" }, if two { ":two-versions-on-track" } else { "" }) };
+        let sig = if standalone == e_exact { format!("C11/standalone-not-semver-aware{}", if two { ":two-versions-on-track" } else { "" }) } else { format!("C11/standalone-report-differs{}{}", if semver_near { ":semver-near" } else { "" }, if two { ":two-versions-on-track" } else { "" }) };
         return o.with_verdict(Verdict::Fail { sig, msg: format!("validate_target reports {standalone:?}; the model (semver-aware lookup as documented) gives {e_semver:?}") });
     }
     comparisons += 1;
